@@ -584,16 +584,15 @@ func listPageInner(ctx context.Context, tx *bolt.Tx, prefix string, after string
 	var keys []string
 
 	prefixBytes := []byte(prefix)
-	seekPrefix := []byte(filepath.Join(prefix, after))
-	if after == "" {
-		seekPrefix = prefixBytes
-	} else if !bytes.HasPrefix(seekPrefix, prefixBytes) {
-		// filepath.Join has the very unfortunate behavior of trimming the
-		// trailing slash when after=".". When e.g., prefix=foo/, this gives
-		// us seekPrefix=foo, which fails the initial HasPrefix check,
-		// skipping all results.
-		seekPrefix = prefixBytes
-	}
+
+	// Entries are compared with after as plain strings, so the first key
+	// that can yield an entry past it is the plain concatenation: every key
+	// prefix+rest whose entry (the first segment of rest) sorts after
+	// `after` satisfies rest > after. Do not clean the path (filepath.Join):
+	// that moves the seek past qualifying keys for values of after such as
+	// "a/../m", or for a prefix without a trailing slash, and out of the
+	// prefix altogether for "..".
+	seekPrefix := []byte(prefix + after)
 
 	// Assume bucket exists and has keys
 	c := tx.Bucket(dataBucketName).Cursor()
